@@ -263,7 +263,7 @@ func TestC12(t *testing.T) {
 	tcfg.Vals.Hostile = true
 	tcfg.MixedBracket = true
 	dfGen := rapid.SampledFrom([]string{"", "", "dflt", "é f"})
-	st.Rapid(t, "hostile-trees", cfg.N(20000, 3000000), func(rt *rapid.T) {
+	st.Rapid(t, "hostile-trees", cfg.N(14000, 3000000), func(rt *rapid.T) {
 		tree := gen.GenTree(tcfg).Draw(rt, "tree")
 		// sprinkle JSON-hostile strings into quoted positions
 		tree.Walk(func(_ int, n *gen.Node) {
